@@ -38,6 +38,7 @@ type DepBlock struct {
 	Value   uint64 `json:"value"`
 	OutIdx  int    `json:"out_idx"` // index of the deposit output (version 1 requires 0)
 	Pad     int    `json:"pad"`     // unrelated outputs before/after
+	CopyOf  int    `json:"copy_of,omitempty"` // 1+index of an earlier model block whose deposit transaction this block contains again (0 = none)
 }
 
 // DepParams are the bridge parameters of a fixture.
@@ -49,6 +50,7 @@ type DepParams struct {
 }
 
 type builtDepBlock struct {
+	copyOf *builtDepBlock
 	spec   DepBlock
 	height uint64
 	blk    *world.BtcBlock
@@ -63,6 +65,21 @@ func evmOf(seed int) []byte { return world.Hash160([]byte(fmt.Sprintf("evm-%d", 
 
 // buildDepBlock constructs the block; keys are the registered keys.
 func buildDepBlock(spec DepBlock, keys []KeySpec, magic []byte) *builtDepBlock {
+	return buildDepBlockReusing(spec, keys, magic, nil)
+}
+
+// buildDepBlockReusing places an already existing transaction (the same txid) into this block.
+func buildDepBlockReusing(spec DepBlock, keys []KeySpec, magic []byte, reuse *builtDepBlock) *builtDepBlock {
+	if reuse != nil {
+		o := reuse.spec
+		spec.Version, spec.Key, spec.EvmSeed, spec.Value, spec.OutIdx, spec.Pad = o.Version, o.Key, o.EvmSeed, o.Value, o.OutIdx, o.Pad
+		if spec.NTx < 2 {
+			spec.NTx = 2
+		}
+		if spec.Pos%spec.NTx == 0 {
+			spec.Pos = 1
+		}
+	}
 	b := &builtDepBlock{spec: spec, height: uint64(depTip - spec.Depth)}
 	n := spec.NTx
 	if n < 1 {
@@ -106,6 +123,9 @@ func buildDepBlock(spec DepBlock, keys []KeySpec, magic []byte) *builtDepBlock {
 		switch {
 		case i == b.pos && i == 0:
 			b.tx = world.CoinbaseTx(b.height, outs...)
+			txs = append(txs, b.tx)
+		case i == b.pos && reuse != nil:
+			b.tx = reuse.tx
 			txs = append(txs, b.tx)
 		case i == b.pos:
 			b.tx = world.SpendTx(uint64(spec.EvmSeed)*1000+b.height, outs...)
@@ -193,8 +213,13 @@ func newDepFixture(p DepParams, keys []KeySpec, blocks []DepBlock) (*depFixture,
 	}
 	f := &depFixture{keys: keys, params: p}
 	byHeight := map[uint64]*builtDepBlock{}
-	for _, bs := range blocks {
-		b := buildDepBlock(bs, keys, p.Magic)
+	for i, bs := range blocks {
+		var reuse *builtDepBlock
+		if bs.CopyOf > 0 && bs.CopyOf-1 < i && f.blocks[bs.CopyOf-1].pos != 0 {
+			reuse = f.blocks[bs.CopyOf-1]
+		}
+		b := buildDepBlockReusing(bs, keys, p.Magic, reuse)
+		b.copyOf = reuse
 		if _, dup := byHeight[b.height]; dup {
 			return nil, fmt.Errorf("two model blocks at height %d", b.height)
 		}
@@ -257,12 +282,14 @@ const (
 	mutDupInBatch
 	mutHeaderDup
 	mutBlockNumberOther
+	mutDupMirror     // the same deposit twice in one batch, the second under the mirror position of a duplicated last leaf
+	mutDupOtherBlock // the same transaction from two voted blocks in one batch
 	numDepMuts
 )
 
 var depMutNames = []string{"none", "header-other-height", "header-bitflip", "header-missing", "tx-byteflip", "tx-trailing-byte", "outidx-shift",
 	"version-swap", "evm-changed", "key-swap", "proof-truncated", "proof-extended", "proof-swapped", "proof-bitflip", "pos-neighbour", "pos-alias",
-	"pos-random", "dup-in-batch", "header-duplicated", "block-number-other"}
+	"pos-random", "dup-in-batch", "header-duplicated", "block-number-other", "dup-mirror-position", "dup-other-block"}
 
 type verdict int
 
@@ -408,6 +435,23 @@ func (f *depFixture) buildAttempt(st DepStep) (*bitcointypes.MsgNewDeposits, *bu
 		msg.Deposits = append(msg.Deposits, b.deposit()) // keeps headers <= deposits
 		msg.BlockHeaders = append(msg.BlockHeaders, b.header())
 		reject("duplicate-header-height")
+	case mutDupMirror:
+		second := b.deposit()
+		n := b.blk.Tree.N()
+		if b.pos == n-1 && n%2 == 1 && n > 1 {
+			second.TxIndex = uint32(b.pos + 1) // same branch, other claimed position
+		}
+		msg.Deposits = append(msg.Deposits, second)
+		reject("duplicate-in-batch")
+	case mutDupOtherBlock:
+		for _, o := range f.blocks {
+			if o.copyOf == b || b.copyOf == o {
+				msg.Deposits = append(msg.Deposits, o.deposit())
+				msg.BlockHeaders = append(msg.BlockHeaders, o.header())
+				reject("same-output-from-two-blocks")
+				break
+			}
+		}
 	case mutBlockNumberOther:
 		if other != b {
 			d.BlockNumber = other.height
